@@ -285,6 +285,11 @@ _forms('text-transformer', 'stdout', 'stdout -transformed-by ', [
     'filter contents matches `r:h`',
     'filter line-num == `i:1`',
     'filter -line-nums `i:1`\n',
+    # one range of every shape (a single range is read by other code than several ranges)
+    'filter -line-nums `n:1:`\n', 'filter -line-nums `n:1:2`\n', 'filter -line-nums `n::2`\n',
+    'filter -line-nums `n:-1`\n', 'filter -line-nums `n:-2:`\n', 'filter -line-nums `n::-1`\n',
+    'filter -line-nums `n:-2:-1`\n', 'filter -line-nums `n:1:-1`\n', 'filter -line-nums `n:-2:2`\n',
+    'filter -line-nums `n:1:` `n:-1`\n',
     'filter -line-nums `i:1:2` `i:-1` `i::3` `i:2:`\n',
     "filter -line-nums `i:'1 + 0'`\n",
     'grep `r:h`',
@@ -361,7 +366,7 @@ EXTRA_SYMBOLS = [('string', 'S_ZERO', "'0'")]
 # ---------------------------------------------------------------------------------------------
 RESERVED = ('(', ')', '[', ']', '{', '}', '=', '|', ':', '!', '&&', '||')
 _TOK_RE = re.compile(r'`[^`]*`|(?:[^\s\'"`]+|\'[^\'\n]*\'|"[^"\n]*")+')
-_KINDS = {'i': 'int', 'r': 'regex', 'R': 'repl', 'g': 'glob', 'p': 'path', 's': 'str', 'P': 'prog', 'D': 'symdef'}
+_KINDS = {'i': 'int', 'n': 'range', 'r': 'regex', 'R': 'repl', 'g': 'glob', 'p': 'path', 's': 'str', 'P': 'prog', 'D': 'symdef'}
 
 
 class Tok:
@@ -461,11 +466,22 @@ EXTREME_INTS = ['0', '-1', '-0', '+1', '99999999999999999999', '-999999999999999
                 "' 7 '", '2147483648', '-2147483649', '~0', 'True', '1-2*3//4%5', '(' * 120 + '1' + ')' * 120,
                 # bounded powers: a huge value from a short text (harmless to evaluate: a 5000-digit integer)
                 '10**5000', '-(10**4999)*10', '(2**8)**2000', '¹', '²', '٣' * 3, '9' * 4300, '9' * 4301]
+# line number ranges of `filter -line-nums`.  BAD: not of the form [INT]:[INT] / INT with integer expressions
+BAD_RANGES = ['a:b', '1:2:3', '1//0:', ':1//0', '1.5:', 'x', '1:b', "'1 :'x", '::', '1::2']
+_HUGE = ['2**63', '2**63+1', '2**64', '10**30', '10**5000', '9' * 400]
+EXTREME_RANGES = ([h + ':' for h in _HUGE] + [':' + h for h in _HUGE] + ['-' + h + ':' for h in _HUGE[:4]]
+                  + [':-' + h for h in _HUGE[:4]] + ['2:' + h for h in _HUGE[:4]] + ['-' + h + ':-1' for h in _HUGE[:3]]
+                  + ['-' + h for h in _HUGE[:4]] + ['-3:' + h for h in _HUGE[:3]] + ['1:-' + h for h in _HUGE[:3]]
+                  + ['0', '0:', ':0', '0:0', '-0:', '2:1', '-1:-2', "'1 : 2'", "' 1: '", '1:1', '-1:1', '1:-1',
+                     '(1):(2)', '1+1:2*2'])
 # regular expressions.  BAD: re.compile raises (harness re-checks)
 BAD_REGEXES = ["'a('", "'a)'", "'[a'", "'*a'", "'a**'", "'a{2,1}'", "'(?P<n>a)(?P<n>b)'", "'(?<=a+)b'", "'\\1'",
                "'(?P=nosuch)'", "'(?z)'", "'\\'", "'[z-a]'", "'(?L)a'", "'a{99999999999999999999}'", "'\\N{nosuchname}'",
                "'(?#'", "'\\x1'", "'(?i'", "'+'", "'?'", "'(?P<1>a)'", "'(?P<n'", "'\\u12'", "'(?au)a'", "'a{1,2}{3}'",
-               "'(?<!a*)b'", "'(?(1)a|b|c)'", "'(?(9)a)'", "'(?-i'", "'\\g<1>\\'"]
+               "'(?<!a*)b'", "'(?(1)a|b|c)'", "'(?(9)a)'", "'(?-i'", "'\\g<1>\\'",
+               # ill-formed and holding a reference to a path symbol: can only be compiled once the sandbox exists
+               '"a(@[EXACTLY_ACT]@"', '"*@[EXACTLY_HOME]@"', '"@[EXACTLY_TMP]@/[a-z"', '@[EXACTLY_RESULT]@/(x',
+               '"(?P<n>@[EXACTLY_ACT_HOME]@"']
 EXTREME_REGEXES = ["''", "'(a*)*b'", "'a{0,65535}'", "'" + '(' * 40 + 'a' + ')' * 40 + "'", "'.{1000}'",
                    "'" + '(' * 3000 + ')' * 3000 + "'", "'" + 'a?' * 200 + "'", "'[^\\W\\d_]'", "'(?s).*'", "'\\Z'",
                    "'" + 'x' * 10000 + "'", "'(?x) a b # comment'", "'\\b\\B'", "'[\\]]'", "'$^'", "'|'", "'(?:)'",
@@ -559,7 +575,7 @@ def wrong_type_symbols(tok, allow_case_symbols=True):
                 continue
             txt = tok.text.replace(current, name)  # keeps the form: bare name, @[..]@, or quoted @[..]@
             out.append((txt, typ, typ not in accepted))
-    elif tok.kind in ('int', 'regex', 'repl', 'glob', 'path', 'str', 'prog'):
+    elif tok.kind in ('int', 'range', 'regex', 'repl', 'glob', 'path', 'str', 'prog'):
         # these positions take a STRING: string, list and path symbols are fine, a symbol of a logic type is a
         # mistake.  Not claimed for kind 'str' (may be a TEXT-SOURCE position, or a marker that is taken literally)
         for typ, name, _ in SYMBOLS:
@@ -573,6 +589,8 @@ def kind_values(kind):
     """-> [(label, value)] of ill-formed / extreme values for a token kind"""
     if kind == 'int':
         return [('bad-int', v) for v in BAD_INTS] + [('extreme-int', v) for v in EXTREME_INTS]
+    if kind == 'range':
+        return [('bad-range', v) for v in BAD_RANGES] + [('extreme-range', v) for v in EXTREME_RANGES]
     if kind == 'regex':
         return [('bad-regex', v) for v in BAD_REGEXES] + [('extreme-regex', v) for v in EXTREME_REGEXES]
     if kind == 'repl':
